@@ -42,19 +42,19 @@ package combinator
 //@   captures (parsers []parsley.Parser)
 //@   requires len(parsers) >= 1 && forall k int :: 0 <= k && k < len(parsers) ==> parsers[k] != nil
 //@   include  parsley.Parser.Parse
-//@ loop 1 (k rangeindex, cp data.IntSet, err parsley.Error)
+//@ loop 1 (k rangeindex, cp data.IntSet, err parsley.Error, notFoundErr parsley.Error)
 //@   invariant 0 <= k && k <= len(parsers)
 //@   invariant parsley.WfCtx(ctx) && parsley.WfCache(ctx) && parsley.InInput(ctx.Reader(), pos) && ghostIn(ctx, lrc, pos)
-//@   invariant data.Inv(cp) && errOK(ctx, err, pos)
-//@   invariant [PC1] k >= 1 && err == nil ==> parsley.GhostCurtailed
+//@   invariant data.Inv(cp) && errOK(ctx, err, pos) && errOK(ctx, notFoundErr, pos)
+//@   invariant [PC1] k >= 1 && err == nil && notFoundErr == nil ==> parsley.GhostCurtailed
 
 //@ -- Any: every parser is tried, the results are merged (E4)
 //@ closure Any$1(ctx *parsley.Context, lrc data.IntMap, pos parsley.Pos) (n parsley.Node, cp data.IntSet, err parsley.Error)
 //@   captures (parsers []parsley.Parser)
 //@   requires len(parsers) >= 1 && forall k int :: 0 <= k && k < len(parsers) ==> parsers[k] != nil
 //@   include  parsley.Parser.Parse
-//@ loop 1 (k rangeindex, cp data.IntSet, res parsley.Node, err parsley.Error)
+//@ loop 1 (k rangeindex, cp data.IntSet, res parsley.Node, err parsley.Error, notFoundErr parsley.Error)
 //@   invariant 0 <= k && k <= len(parsers)
 //@   invariant parsley.WfCtx(ctx) && parsley.WfCache(ctx) && parsley.InInput(ctx.Reader(), pos) && ghostIn(ctx, lrc, pos)
-//@   invariant data.Inv(cp) && errOK(ctx, err, pos) && resOK(ctx, res, pos)
-//@   invariant [PC1] k >= 1 && res == nil && err == nil ==> parsley.GhostCurtailed
+//@   invariant data.Inv(cp) && errOK(ctx, err, pos) && errOK(ctx, notFoundErr, pos) && resOK(ctx, res, pos)
+//@   invariant [PC1] k >= 1 && res == nil && err == nil && notFoundErr == nil ==> parsley.GhostCurtailed
